@@ -39,7 +39,13 @@ Fold(m, evs) ==
 Commit(s, op) ==
   LET s1 == Emit(s, NexpEv(s))
       r == Fold(mon, s1.evs) IN
-  /\ tm' = [s1 EXCEPT !.evs = << >>, !.n = @ + 1]
+  /\ tm' = [s1 EXCEPT !.evs = << >>, !.n = @ + 1,
+                       \* operations that do not change the timer set (stale / Default keys, is_active) still
+                       \* count as distinct behaviours: one representative of each is explored and exported
+                       !.obs = IF op.op \in {"tupd", "tdel", "tact"}
+                               THEN @ \cup {<<op.op, op.tid, IF "kind" \in DOMAIN op THEN op.kind ELSE "",
+                                              IF "t" \in DOMAIN op THEN Lt(op.t, s.cnow) ELSE FALSE>>}
+                               ELSE @]
   /\ mon' = r.st
   /\ bad' = bad \cup r.bad \cup (IF s.panicked THEN {<<"C08", "operation would panic / wrap (model)">>} ELSE {})
   /\ hist' = Append(hist, [op |-> op, evs |-> s1.evs])
